@@ -120,23 +120,44 @@ func gateway(tracePath string, clients, rounds int, seed int64) error {
 		}(i)
 	}
 	done := make(chan struct{})
-	go func() { wg.Wait(); close(done) }()
-	select {
-	case <-done:
-	case e := <-errs:
-		return e
-	case <-time.After(600 * time.Second):
-		return fmt.Errorf("gateway clients did not finish")
-	}
-	// abandoned server-side waits are granted and then released by their TTL: wait for every entry to leave
-	rec.mu.Lock()
-	pending := append([]*grantInfo{}, all...)
-	rec.mu.Unlock()
-	for _, g := range pending {
+	go func() {
+		wg.Wait()
+		// abandoned server-side waits are granted and then released by their TTL: wait for every entry to leave
+		rec.mu.Lock()
+		pending := append([]*grantInfo{}, all...)
+		rec.mu.Unlock()
+		for _, g := range pending {
+			<-g.gone
+		}
+		close(done)
+	}()
+	// the longest legitimate silence is a TTL of 1.5 s; a log that has not grown for 90 s while calls are
+	// outstanding means somebody is never granted the lock: that is the observation (a rest line showing who waits)
+	lastLen, lastChange := tw.Len(), time.Now()
+waitClients:
+	for {
 		select {
-		case <-g.gone:
-		case <-time.After(600 * time.Second):
-			return fmt.Errorf("an entry never left its queue")
+		case <-done:
+			break waitClients
+		case e := <-errs:
+			return e
+		case <-time.After(200 * time.Millisecond):
+		}
+		if n := tw.Len(); n != lastLen {
+			lastLen, lastChange = n, time.Now()
+		} else if time.Since(lastChange) > 90*time.Second {
+			pcs := map[string]string{}
+			rec.mu.Lock()
+			for _, g := range all {
+				select {
+				case <-g.gone:
+				default:
+					pcs[g.owner] = "waiting"
+				}
+			}
+			rec.mu.Unlock()
+			emitRest(tw, pcs, qmapOf(l))
+			return tw.Close()
 		}
 	}
 	if exhausted {
